@@ -166,6 +166,7 @@ Proof.
     split; [reflexivity|]. split; [reflexivity|]. unfold child_prog. cbn [prog_ok].
     destruct child_ghost_ok as (Hh & Hs & Hex). apply (ok_hrun b0); [exact Hh|exact Hs|exact Hex|].
     intros g' S' R'. cbn [prog_ok]. split; [exact R'|apply S'].
+  - intros u. pose proof (T_init n u) as E. unfold T in E. rewrite E. destruct u; reflexivity.
 Qed.
 
 (* every reachable configuration: well typed (so every thread's next event is enabled, Compose.typed_progress), and no
